@@ -3,6 +3,7 @@
   Evaluated by the driver on the fair walks of the real controllers, and used by the theorems of `RV.Props.ClosedLoop`.
 -/
 import RV.Oracle.ClosedLoop
+import RV.Oracle.Executor
 namespace RV.Oracle.ClosedLoop
 open RV.Arith RV.Traffic RV.RolloutSM RV.ClosedLoop
 
@@ -97,5 +98,129 @@ def terminalOK (s : CS) : Bool :=
 
 /-- bound of the measure: every state has `mu s ≤ muBound` -/
 def muBound (n : Nat) : Nat := 32 + n * stepW + 4
+
+end RV.Oracle.ClosedLoop
+
+/-! ### round-boundary classes of a healthy run without traffic routing (used by the progress theorems) -/
+namespace RV.Oracle.ClosedLoop
+open RV.Arith RV.Traffic RV.RolloutSM RV.ClosedLoop
+
+/-- the configuration the progress theorems speak about: no traffic routing (no step carries a weight), no pause that
+    never elapses, at least one replica, and every step's partition lets the workload reach what the readiness check demands
+    (excludes known finding `pctFallback`) -/
+def stepReady (R : Int) (e : IntOrPct) : Bool :=
+  decide (RV.BatchCtx.desiredOf .cloneSet R e none ≤ exposure (RV.BatchCtx.desKnob .cloneSet R e none) R) &&
+  decide (0 < RV.BatchCtx.desiredOf .cloneSet R e none → 0 < exposure (RV.BatchCtx.desKnob .cloneSet R e none) R)
+
+def liveCfg (s : CS) : Bool :=
+  !s.ro.hasTraffic && s.ro.steps.all (fun st => st.weight.isNone && st.pause != .long) &&
+  (match s.wl with
+   | some w => decide (0 < w.replicas) && (planOf s.ro).all (stepReady w.replicas) && !w.paused && w.updateRevision != ""
+   | none => false)
+
+/-- what holds at the end of every fair round: the CloneSet controller has caught up (one more `env` changes nothing) and
+    every recorded time has aged (one more `tick` changes nothing) -/
+def atBoundary (s : CS) : Bool :=
+  (match s.wl with | some w => envWl w == w | none => false) && (tick s == s)
+
+/-- the executor's status is in step with the object: counters refreshed, generation observed, finalizer set, nothing pending -/
+def brSync (b : CBr) (w : CWl) : Bool :=
+  b.st.updated == w.updated && b.st.updatedReady == w.updatedReady && b.generation == b.observedGeneration &&
+  b.hasFinalizer && !b.deleting && b.observedRolloutID == b.rolloutID && b.rolloutID == w.updateRevision &&
+  b.specOther && b.failureThreshold.isNone && b.st.hash == .same
+
+/-- the executor has initialised the release: revisions and size recorded, workload claimed -/
+def brInit (b : CBr) (w : CWl) : Bool :=
+  b.st.updateRevision == "wl-" ++ w.updateRevision && b.st.observedReplicas == w.replicas && w.owner == .this &&
+  b.st.phase == .progressing
+
+/-- `brSync` without the refreshed counters (the workload moved since the executor looked) -/
+def brSyncLag (b : CBr) (w : CWl) : Bool :=
+  (b.st.updated != w.updated || b.st.updatedReady != w.updatedReady) && b.generation == b.observedGeneration &&
+  b.hasFinalizer && !b.deleting && b.observedRolloutID == b.rolloutID && b.rolloutID == w.updateRevision &&
+  b.specOther && b.failureThreshold.isNone && b.st.hash == .same
+
+/-- the partition in force keeps at most as many pods on the old revision as the partition computed for the executor's batch
+    (post-condition of `UpgradeBatch`) -/
+def partLow (b : CBr) (w : CWl) : Bool :=
+  match w.partition, (if b.st.currentBatch < 0 then none else b.batches[b.st.currentBatch.toNat]?) with
+  | some k, some e => decide (scaledV k w.replicas true ≤ scaledV (RV.BatchCtx.desKnob .cloneSet w.replicas e none) w.replicas true)
+  | _, _ => false
+
+/-- class of a round-boundary state (0 = none of the listed classes) -/
+def cls (s : CS) : Nat :=
+  match s.wl with
+  | none => 0
+  | some w =>
+    match s.ro.phase, s.ro.reason with
+    | .healthy, _ =>
+      if w.inProgressAnno then (if w.generation = w.observedGeneration then 2 else 1)
+      else if s.br.isNone then 40 else 0
+    | .progressing, .initializing => if s.ro.condAge = .fresh then 0 else 4
+    | .progressing, .inRolling =>
+      (match s.ro.sub with
+       | none => 0
+       | some sub =>
+         match sub.state with
+         | .init =>
+           (match s.br with
+            | none => if sub.curIdx = 1 then 5 else 0
+            | some b => if brSync b w && brInit b w && b.st.batchState == .ready && b.st.hasReadyTime &&
+                           b.partition == some (sub.curIdx - 2) && b.st.currentBatch == sub.curIdx - 2 &&
+                           RV.Oracle.Executor.batchReadyNow (exBr b) (some (exWl w)) then 5 else 0)
+         | .upgrade =>
+           (match s.br with
+            | none => if sub.curIdx = 1 then 6 else 0
+            | some b =>
+              if b.partition == some (sub.curIdx - 2) then
+                (if brSync b w && brInit b w && b.st.batchState == .ready && b.st.hasReadyTime && b.st.currentBatch == sub.curIdx - 2 &&
+                    RV.Oracle.Executor.batchReadyNow (exBr b) (some (exWl w)) then 7 else 0)
+              else if b.partition == some (sub.curIdx - 1) then
+                (if brSyncLag b w && brInit b w && b.st.currentBatch == sub.curIdx - 1 && b.st.batchState == .verifying && partLow b w then 10
+                 else if !brSync b w then 0
+                 else if b.st.phase == .preparing then
+                   (if b.st.batchState == .empty && b.st.currentBatch == 0 && b.st.observedReplicas == -1 && b.st.updateRevision == "" &&
+                       sub.curIdx == 1 && w.updateRevision != w.currentRevision then 8 else 0)
+                 else if !brInit b w || b.st.currentBatch != sub.curIdx - 1 then 0
+                 else match b.st.batchState with
+                   | .empty | .upgrading => 9
+                   | .verifying => if partLow b w then 11 else 0
+                   | .ready => if b.st.hasReadyTime && RV.Oracle.Executor.batchReadyNow (exBr b) (some (exWl w)) then 12 else 0
+                   | .other => 0)
+              else 0)
+         | .trafficRouting | .metricsAnalysis | .ready | .completed =>
+           (match s.br with
+            | some b => if brSync b w && brInit b w && b.st.batchState == .ready && b.st.hasReadyTime &&
+                           b.partition == some (sub.curIdx - 1) && b.st.currentBatch == sub.curIdx - 1 &&
+                           RV.Oracle.Executor.batchReadyNow (exBr b) (some (exWl w)) then
+                         (match sub.state with | .trafficRouting => 13 | .metricsAnalysis => 14 | .ready => 16 | _ => 17) else 0
+            | none => 0)
+         | _ => 0)
+    | .progressing, .finalising =>
+      (match s.ro.sub with
+       | none => 0
+       | some sub =>
+         match sub.finStep, s.br with
+         | .empty, some b | .restoreStableService, some b | .routeTrafficToStable, some b | .removeCanaryService, some b =>
+           if brSync b w && brInit b w && b.st.batchState == .ready && b.partition.isSome &&
+              RV.Oracle.Executor.batchReadyNow (exBr b) (some (exWl w)) && isPartitioned' b then
+             (match sub.finStep with | .empty => 20 | .restoreStableService => 21 | .routeTrafficToStable => 22 | _ => 23) else 0
+         | .resumeWorkload, some b =>
+           if b.partition.isSome then
+             (if brSync b w && brInit b w && b.st.batchState == .ready && RV.Oracle.Executor.batchReadyNow (exBr b) (some (exWl w)) && isPartitioned' b then 24 else 0)
+           else if b.st.phase == .finalizing then 25
+           else if b.st.phase == .completed then 26 else 0
+         | .releaseWorkloadControl, some b => if b.st.phase == .completed && !b.deleting && b.hasFinalizer then 27 else 0
+         | .releaseWorkloadControl, none => 29
+         | _, _ => 0)
+    | .progressing, .completed => if s.br.isNone then 30 else 0
+    | _, _ => 0
+where
+  isPartitioned' (b : CBr) : Bool := match b.partition with | some p => decide (p ≤ b.st.currentBatch) | none => false
+
+/-- **the round-boundary invariant of a healthy run without traffic routing**: the forward invariant, the configuration, one of
+    the listed classes, and (except right after the release, class 1) the round-boundary facts -/
+def liveInv (s : CS) : Bool :=
+  fwdInv s && liveCfg s && cls s != 0 && (cls s == 1 || atBoundary s)
 
 end RV.Oracle.ClosedLoop
